@@ -4,10 +4,33 @@ import RisorModel.Generated.C19
 C19 ties: the wrapper inventory regenerated from `modules/strings/strings.go` and
 `strings_gen.go` on this run (exported name, Go function called and the order in which the
 parameters are passed on, argument converters, result constructor) equals the hand-written
-table `stringsSigs` that the theorems in `Props.lean` are stated over.
+table `stringsSigs` that the theorems in `Props.lean` are stated over; and the type switches
+of `object.AsBytes` / `object.AsString` regenerated from `object/typeconv.go` send every
+argument object to the same kind of case (look / read as a stream / refuse) as the tables
+`asBytesCases` / `asStringCases` of the model.
 -/
 namespace Risor.C19
 
 theorem stringsSigs_tie : Risor.Generated.C19.stringsSigs = stringsSigs := by decide
+
+/-- `object.AsBytes` as regenerated from object/typeconv.go on this run treats EVERY argument
+    object — every value, every buffer, every file — the way the table `asBytesCases` does that
+    the argument-object theorems of `Props.lean` are stated over: looked at, read as a stream,
+    or refused.  (Stated on the case each object reaches, so the order of cases that cannot
+    both match is free; a `*Buffer` reaching the `io.Reader` fallback is not.) -/
+theorem asBytesCases_tie : ∀ o : Obj, caseOf Risor.Generated.C19.asBytesCases o = caseOf asBytesCases o := by
+  intro o
+  cases o with
+  | val v => cases v <;> rfl
+  | buffer b off => rfl
+  | file d pos => rfl
+
+/-- the same for `object.AsString` -/
+theorem asStringCases_tie : ∀ o : Obj, caseOf Risor.Generated.C19.asStringCases o = caseOf asStringCases o := by
+  intro o
+  cases o with
+  | val v => cases v <;> rfl
+  | buffer b off => rfl
+  | file d pos => rfl
 
 end Risor.C19
